@@ -113,7 +113,7 @@ Section WithStringNumber.
     | VNull => Ok 0
     | VBool b => Ok (if b then float_of_int 1 else 0)
     | VInt _ n => Ok (float_of_int n)
-    | VF32 _ => Panic                      (* no float32 case: panic(fmt.Errorf("toFloat(%T)")) *)
+    | VF32 b => Ok (widen32 b)             (* case float32: float64(value) *)
     | VF64 b => Ok b
     | VStr s => Ok (str_number s)
     end.
@@ -157,7 +157,7 @@ Definition to_boolean (v : value) : bool :=
   | VUndef | VNull => false
   | VBool b => b
   | VInt _ n => negb (n =? 0)
-  | VF32 b => negb (is_zero32 b)            (* "value != 0": a float32 NaN is true *)
+  | VF32 b => let d := widen32 b in negb (is_nan d || is_zero d)   (* value != 0 && value == value *)
   | VF64 b => negb (is_nan b || is_zero b)
   | VStr s => negb (match s with [] => true | _ => false end)
   end.
@@ -203,7 +203,7 @@ Section WithFloatString.
     end.
 
   (* ---------- Value.MarshalJSON: json.Marshal(v.value) for numbers and booleans ---------- *)
-  (* None = the error encoding/json returns for NaN and the infinities *)
+  (* None = not modelled (float32 payload) *)
   Definition marshal_json (json_string : list Z -> list Z) (v : value) : option (list Z) :=
     match v with
     | VUndef | VNull => Some str_null
@@ -211,7 +211,7 @@ Section WithFloatString.
     | VInt _ n => Some (decimal n)
     | VF32 b => None                        (* float32 payload: Go prints float32 digits; not modelled *)
     | VF64 b => match decode b with
-                | DNaN | DInf _ => None     (* json: unsupported value *)
+                | DNaN | DInf _ => Some str_null   (* as JSON.stringify *)
                 | DFin _ _ _ => if b =? nzero_bits then Some [45; 48] else Some (string_of_bits b)
                 end
     | VStr s => Some (json_string s)
